@@ -63,8 +63,24 @@ BATTERY = [
      [{"a": 1, "b": 1, "c": 1}], None),
     ("b17", {"$ref": "#/definitions/s", "minimum": 100, "maxLength": 0, "definitions": {"s": {"type": "integer"}}},
      [1, "x"], None),
+    # every remaining built-in keyword of the four drafts occurs in some probe WITHOUT most of the others, so
+    # that an override of keyword K can be compared on schemas that never mention K (cross-keyword coupling)
+    ("b18", {"dependencies": {"bar": ["foo"], "baz": {"minProperties": 3}}},
+     [{"bar": 1}, {"bar": 1, "foo": None}, {"baz": 1}], None),
+    ("b19", {"allOf": [{"minLength": 2}], "anyOf": [{"maxItems": 0}, {"minItems": 2}], "oneOf": [{}, {"pattern": "^a"}]},
+     ["a", [1], "ab", "b"], None),
+    ("b20", {"not": {"uniqueItems": True}, "if": {"maxProperties": 0}, "then": {"const": {}}, "else": {"propertyNames": {"pattern": "^k"}}},
+     [[1, 1], [1, 2], {}, {"x": 1}], None),
+    ("b21", {"disallow": ["string"], "extends": {"maxItems": 1}, "exclusiveMinimum": 3, "exclusiveMaximum": 9},
+     ["s", [1, 2], 3, 9.5], None),
+    ("b22", {"additionalItems": {"maximum": 1}, "contains": {"multipleOf": 2}, "uniqueItems": True},
+     [[3, 3], [2, 5]], None),
 ]
-OVERRIDABLE = ["minimum", "maxLength", "enum", "x-marker", "x-also", "required", "items"]
+OVERRIDABLE = ["minimum", "maxLength", "enum", "x-marker", "x-also", "required", "items",
+               "maximum", "minLength", "pattern", "minItems", "maxItems", "uniqueItems", "properties",
+               "additionalProperties", "patternProperties", "dependencies", "allOf", "anyOf", "oneOf", "not", "if",
+               "const", "contains", "propertyNames", "multipleOf", "divisibleBy", "format", "$ref", "additionalItems",
+               "minProperties", "maxProperties", "exclusiveMinimum", "extends", "disallow"]
 T_DEPENDENT = ("b2", "b3")
 
 
@@ -281,13 +297,33 @@ def execute(scn):
                     if isinstance(a, dict) or isinstance(b, dict):
                         continue
                     import json as _j
-                    fa = [e for e in a if _j.loads(e)["validator"] not in [["s", k] for k in changed_kws]
-                          and not _inside(_j.loads(e), changed_kws)]
-                    fb = [e for e in b if _j.loads(e)["validator"] not in [["s", k] for k in changed_kws]
-                          and not _inside(_j.loads(e), changed_kws)]
+                    # errors reported under a top-level keyword of the probe that IS overridden, or whose value
+                    # mentions an overridden keyword (an applicator around it), or that leaves through a reference
+                    # into a schema mentioning one, may legitimately differ; all others may not
+                    tainted = set()
+                    for K in schema:
+                        if K in changed_kws or _contains_key({"_": schema[K]}, changed_kws) or \
+                                (K == "$ref" or _contains_key({"_": schema[K]}, ("$ref",))):
+                            tainted.add(K)
+                    if "$ref" in tainted:
+                        break        # a top-level $ref IS the whole schema: every error is reported through it
+                    if "if" in tainted or "then" in tainted or "else" in tainted:
+                        tainted.update(("if", "then", "else"))   # errors of `if` are reported under then / else
+
+                    def keep(e):
+                        d = _j.loads(e)
+                        sp = d["schema_path"][1]
+                        top = sp[0][1] if sp and isinstance(sp[0], list) else None
+                        if d["validator"] in [["s", k] for k in changed_kws]:
+                            return False       # (`if` and `$ref` do not prepend themselves to the schema path)
+                        return top not in tainted
+                    fa = [e for e in a if keep(e)]
+                    fb = [e for e in b if keep(e)]
                     if fa != fb:
                         violations.append({"oracle": "override-changed-other-keywords", "where": step, "op": opname,
-                                           "detail": {"battery": bid, "instance": insts[r], "overridden": changed_kws}})
+                                           "detail": {"battery": bid, "instance": insts[r], "overridden": changed_kws,
+                                                      "parent_only": [e for e in fa if e not in fb][:2],
+                                                      "child_only": [e for e in fb if e not in fa][:2]}})
                         return
                 continue
             if jdump(pv["battery"][bid]) != jdump(child_vec["battery"][bid]):
